@@ -286,6 +286,15 @@ package pubsub
 //@   ensures others-kept: forall q string :: q != p ==> (q in ps.peerStats) == lin(q in ps.peerStats) && ps.peerStats[q] == lin(ps.peerStats[q])
 //@   ensures released: !held(ps.Mutex)
 
+// Decay (C10): a counter is multiplied by its decay factor and snapped to zero below DecayToZero.
+//@ spec fn dz(ps *peerScore, x float64) float64 = ite(x < ps.params.DecayToZero, 0.0, x)
+//@ spec fn decayedStats(ps *peerScore, o *topicStats, t string) bool =
+//@      o.firstMessageDeliveries == dz(ps, lin(o.firstMessageDeliveries) * ps.params.Topics[t].FirstMessageDeliveriesDecay) &&
+//@      o.meshMessageDeliveries == dz(ps, lin(o.meshMessageDeliveries) * ps.params.Topics[t].MeshMessageDeliveriesDecay) &&
+//@      o.meshFailurePenalty == dz(ps, lin(o.meshFailurePenalty) * ps.params.Topics[t].MeshFailurePenaltyDecay) &&
+//@      o.invalidMessageDeliveries == dz(ps, lin(o.invalidMessageDeliveries) * ps.params.Topics[t].InvalidMessageDeliveriesDecay)
+//@ spec fn sameStats(o *topicStats) bool = o.firstMessageDeliveries == lin(o.firstMessageDeliveries) && o.meshMessageDeliveries == lin(o.meshMessageDeliveries) &&
+//@      o.meshFailurePenalty == lin(o.meshFailurePenalty) && o.invalidMessageDeliveries == lin(o.invalidMessageDeliveries)
 // refreshScores (retention, C13): statistics of a disconnected peer are dropped exactly when its
 // retention period has expired (now > expire); until then the retained counters are not decayed;
 // nobody else is dropped and nobody is added. (The decay arithmetic of connected peers is not
@@ -314,6 +323,15 @@ package pubsub
 //@        lin(ps.peerStats[q].topics[t]).meshFailurePenalty == lin(ps.peerStats[q].topics[t].meshFailurePenalty) &&
 //@        lin(ps.peerStats[q].topics[t]).invalidMessageDeliveries == lin(ps.peerStats[q].topics[t].invalidMessageDeliveries) &&
 //@        lin(ps.peerStats[q]).behaviourPenalty == lin(ps.peerStats[q].behaviourPenalty)
+//@   loop 1 invariant decayed: forall q string, t string :: lin(q in ps.peerStats) && lin(ps.peerStats[q].connected) && lin(t in ps.peerStats[q].topics) && t in ps.params.Topics ==>
+//@        ($visited[q] ==> decayedStats(ps, lin(ps.peerStats[q].topics[t]), t)) && (!$visited[q] ==> sameStats(lin(ps.peerStats[q].topics[t])))
+//@   loop 1 invariant penalty-decayed: forall q string :: lin(q in ps.peerStats) && lin(ps.peerStats[q].connected) ==>
+//@        lin(ps.peerStats[q]).behaviourPenalty == ite($visited[q], dz(ps, lin(ps.peerStats[q].behaviourPenalty) * ps.params.BehaviourPenaltyDecay), lin(ps.peerStats[q].behaviourPenalty))
+//@   loop 2 invariant decayed: forall q string, t string :: lin(q in ps.peerStats) && lin(ps.peerStats[q].connected) && lin(t in ps.peerStats[q].topics) && t in ps.params.Topics ==>
+//@        ((q != p && $visited#1[q]) || (q == p && $visited[t]) ==> decayedStats(ps, lin(ps.peerStats[q].topics[t]), t)) &&
+//@        (!((q != p && $visited#1[q]) || (q == p && $visited[t])) ==> sameStats(lin(ps.peerStats[q].topics[t])))
+//@   loop 2 invariant penalty-decayed: forall q string :: lin(q in ps.peerStats) && lin(ps.peerStats[q].connected) ==>
+//@        lin(ps.peerStats[q]).behaviourPenalty == ite($visited#1[q] && q != p, dz(ps, lin(ps.peerStats[q].behaviourPenalty) * ps.params.BehaviourPenaltyDecay), lin(ps.peerStats[q].behaviourPenalty))
 //@   loop 2 invariant current: p in ps.peerStats && ps.peerStats[p] == pstats && lin(p in ps.peerStats) && pstats == lin(ps.peerStats[p]) && lin(ps.peerStats[p].connected) && $visited#1[p]
 //@   loop 2 invariant kept: forall q string :: (q in ps.peerStats ==> lin(q in ps.peerStats) && ps.peerStats[q] == lin(ps.peerStats[q])) &&
 //@        (lin(q in ps.peerStats) && !(q in ps.peerStats) ==> $visited#1[q] && !lin(ps.peerStats[q].connected) && now > lin(ps.peerStats[q].expire))
@@ -325,4 +343,8 @@ package pubsub
 //@        lin(ps.peerStats[q].topics[t]).meshFailurePenalty == lin(ps.peerStats[q].topics[t].meshFailurePenalty) &&
 //@        lin(ps.peerStats[q].topics[t]).invalidMessageDeliveries == lin(ps.peerStats[q].topics[t].invalidMessageDeliveries) &&
 //@        lin(ps.peerStats[q]).behaviourPenalty == lin(ps.peerStats[q].behaviourPenalty)
+//@   ensures connected-decayed: forall q string, t string :: lin(q in ps.peerStats) && lin(ps.peerStats[q].connected) && lin(t in ps.peerStats[q].topics) && t in ps.params.Topics ==>
+//@        decayedStats(ps, lin(ps.peerStats[q].topics[t]), t)
+//@   ensures penalty-decayed: forall q string :: lin(q in ps.peerStats) && lin(ps.peerStats[q].connected) ==>
+//@        lin(ps.peerStats[q]).behaviourPenalty == dz(ps, lin(ps.peerStats[q].behaviourPenalty) * ps.params.BehaviourPenaltyDecay)
 //@   ensures released: !held(ps.Mutex)
